@@ -17,6 +17,8 @@ from props import gen_common as G
 from props.c01 import _splits
 from symx import concrete as C
 
+from props import alias_common as _alias
+
 ID = "C03"
 
 ENDPOINT_OPTIONS = [
@@ -93,6 +95,7 @@ def jobs(tier, seed):
     # (it rebuilds it through load(serialize())): every option combination through generate itself
     for eo in ENDPOINT_OPTIONS[1:]:
         out.append(dict(h="dataset", gen="gen_dfs", n=2, kwargs={}, endpoint=eo, n_mazes=1, max_seconds=3300))
+    out.append(dict(_alias.ALIAS_JOB))  # results must not alias library state, arguments or each other (props/alias_common.py)
     out[0]["twin"] = True
     return out
 
@@ -264,6 +267,7 @@ def _solver_harness():
 
 HARNESSES = {"item": dict(run=_run_item, replay=_replay_item, patch=_PATCH), "solver": _solver_harness(),
              "dataset": dict(run=_run_dataset, replay=_replay_dataset, patch=_PATCH)}
+HARNESSES["alias"] = _alias.alias_harness("C03")
 
 META = dict(
     functions=["_maze_gen_init_worker", "_generate_maze_helper", "MazeDataset.generate (serial branch)", "LatticeMaze.generate_random_path",
@@ -284,3 +288,5 @@ META = dict(
     assumptions=["ValueError outcomes accepted as documented: 'no valid start or end positions found', sampling two endpoints from a one-cell component, "
                  "empty end set after removing the start"],
 )
+
+META.setdefault("degenerate", {})["alias"] = _alias.ALIAS_META
